@@ -339,8 +339,14 @@ theorem filterMap_congr' {α β : Type} {f g : α → Option β} {l : List α} (
     have hl := ih (fun b hb => h b (List.mem_cons_of_mem _ hb))
     simp only [List.filterMap_cons, ha, hl]
 
+theorem length_encodeRows (w1 w2 w3 : Nat) (rows : List Row) :
+    (encodeRows w1 w2 w3 rows).length = (w1 + w2 + w3) * rows.length := by
+  induction rows with
+  | nil => simp [encodeRows]
+  | cons r rs ih => simp [encodeRows, length_encodeRow, ih, Nat.mul_succ]; omega
+
 theorem objidsAux_spec (ranges : List (Nat × Nat)) (w1 w2 w3 : Nat) (rows : List Row)
-    (hf : ∀ r ∈ rows, FitsRow w1 w2 w3 r) (allr : List (Nat × Nat)) (idx : Nat)
+    (hf : ∀ r ∈ rows, FitsRow w1 w2 w3 r) (hpos : 0 < w1 + w2 + w3) (allr : List (Nat × Nat)) (idx : Nat)
     (hlen : idx + sumCounts ranges ≤ rows.length) :
     objidsAux (XStream.mk allr w1 w2 w3 (encodeRows w1 w2 w3 rows)) ranges idx = objidsSpec ranges (rows.drop idx) := by
   induction ranges generalizing idx with
@@ -356,6 +362,11 @@ theorem objidsAux_spec (ranges : List (Nat × Nat)) (w1 w2 w3 : Nat) (rows : Lis
       have hic : i < c := List.mem_range.mp hi
       have hlt : idx + i < rows.length := by omega
       have hget : rows[idx + i]? = some rows[idx + i] := List.getElem?_eq_getElem hlt
+      have hin : rowInData ((w1 + w2 + w3) * (idx + i)) (encodeRows w1 w2 w3 rows).length = true := by
+        rw [length_encodeRows]
+        have : (w1 + w2 + w3) * (idx + i) < (w1 + w2 + w3) * rows.length := Nat.mul_lt_mul_of_pos_left hlt hpos
+        simp [rowInData]; omega
+      simp only [XStream.entlen, hin, Bool.true_and]
       rw [rowType_eq_row, row_encodeRows allr w1 w2 w3 rows (idx + i) _ hget (hf _ (List.getElem_mem hlt))]
       simp [List.getElem?_drop, hget]
     · simp [List.drop_drop]
